@@ -72,8 +72,10 @@ class YaqlEngine:
         if options:
             return self.copy(options)(expression)
 
+        # the ply lexer carries the cursor over the text being parsed: give
+        # each parse its own clone so that engines can be shared by threads
         return expressions.Statement(
-            self.parser.parse(expression, lexer=self.lexer), self)
+            self.parser.parse(expression, lexer=self.lexer.clone()), self)
 
     def copy(self, options):
         opt = dict(self._options)
